@@ -80,7 +80,10 @@ func HandleDeletePlan(p *DeletePlan) error {
 		return fmt.Errorf("handle OrderBy error: %v", err)
 	}
 
-	// Limit clause does not need to handle
+	// Limit clause is sent to the sub tables as it is
+	if err := checkOrderByLimitInModify(p.StmtInfo, p.stmt.Order, p.stmt.Limit); err != nil {
+		return err
+	}
 
 	// handle global table
 	if err := postHandleGlobalTableRouteResultInModify(p.StmtInfo); err != nil {
